@@ -4,38 +4,38 @@ import json, os, sys
 HERE = os.path.dirname(os.path.dirname(os.path.abspath(__file__)))
 PY = '/venv/bin/python'
 CLAIMED = {
- 'C19': dict(engine='handles', cat='fault_enumeration', design='5 C19',
-   text='Seeded write sequences over HandleLimiter/FastqHandle(single_cell) on an in-memory SimFS; for every sampled sequence the fault family is enumerated (every fd budget k, a transient open failure at every open attempt, every path permanently failing, clock anomalies). Oracle: decompressed content per path equals acknowledged payloads in order, valid gzip, no leaked handle, write() raises only if its own open failed with no other handle open, bounded open attempts. Sampling over sequences, enumeration over faults: evidence, not proof.',
-   note='Trusts: in-memory SimFS models open()/append/truncate; real gzip. write()/close() I/O errors not injected (outside the statement).',
-   tech='deterministic simulation: seeded workload x enumerated open()-fault plans on a simulated file system and clock; ddmin-minimised explicit replay files'),
+ 'C19': dict(engine='handles', cat='fault_enumeration', design='5 C19, 12.5',
+   text='Seeded write sequences over HandleLimiter/FastqHandle(single_cell) on an in-memory SimFS (optionally holding files left by an earlier run); for every sampled sequence the fault family is enumerated: every fd budget k, a transient open failure at every open attempt (EMFILE/ENFILE/EIO), pairs of failures, every path permanently failing, clock anomalies. Oracle: decompressed content per path equals the acknowledged payloads in order, valid gzip, no leaked handle, write() raises only if its own open failed with no other handle open, bounded open attempts. A share of the cases additionally (a) runs the sequence on real gzip files under a real RLIMIT_NOFILE in a forked child (fidelity of the stub) and (b) re-executes the bamSplitByTag driver loop on seeded tagged BAMs for max_handles in {1, cells-1, cells, cells+1, random, 400} with tag values that collide after clean-up. Sampling over sequences, enumeration over faults: evidence, not proof.',
+   note='Trusts: in-memory SimFS models open()/append/truncate; real gzip. write()/close() I/O errors are not injected (outside the statement).',
+   tech='deterministic simulation: seeded workload x enumerated open()-fault plans on a simulated file system and clock; real descriptor-limit cross-check; ddmin-minimised explicit replay files'),
  'C16': dict(engine='features', cat='exploration', design='5 C16',
    text='Seeded operation histories (add* sort query*)+ over two FeatureContainers sharing the process-global LRU memo, with repeated queries across re-indexing and LRU churn through the second container; every point/range/aligned-read result is compared as a set with a brute-force list model, operation by operation. Sampled histories: evidence, not proof.',
    note='Trusts the list model and pysam block semantics (half-open). Un-indexed queries are preceded by sort() by the harness. No fault/clock exists on this surface; the simulator owns the history only.',
    tech='deterministic simulation: seeded operation histories against an executable reference model, checked per operation; ddmin-minimised replay files'),
- 'C07': dict(engine='eject', cat='exploration', design='5 C07',
-   text='For each seeded coordinate-sorted fragment sequence (<=60 NLA fragments, duplicates arriving after unrelated molecules became ejectable, fragment+read length <= cache_size/2) EVERY check_eject_every in {None,0..n} x both pooling methods is executed on the real MoleculeIterator; oracle: partition equals the never-eject partition and the ground-truth classes, every fragment yielded exactly once, no molecule emitted while a later fragment of its group is still to arrive. Schedules exhaustive per input; inputs sampled.',
-   note='Trusts the arrival-order model of a coordinate-sorted BAM (tuples sorted by the later mate start) and the cache_size/2 precondition argument in DESIGN.md.',
+ 'C07': dict(engine='eject', cat='exploration', design='5 C07, 12.5',
+   text='For each seeded coordinate-sorted fragment sequence (<=60 fragments; site-anchored NLA pairs, chained base-class fragments linked by a shared start or end, single-end long reads, equal coordinates on two contigs; all inside the precondition) EVERY check_eject_every in {None,0..n} x both pooling methods runs on the real MoleculeIterator; oracle: partition equals the never-eject partition (and the ground-truth classes where a site-based truth exists), every fragment yielded exactly once, no molecule emitted while a later fragment of its group is still to arrive; plus histories on one iterator object (a pass abandoned after k molecules, then a full pass). Schedules exhaustive per input; inputs sampled.',
+   note='Trusts the arrival-order model of a coordinate-sorted BAM (tuples sorted by the later mate start) and the precondition argument in DESIGN.md (paired: fragment+read <= cache_size/2; single-end: read < cache_size/2). For the base classes the two pooling methods are not compared with each other.',
    tech='deterministic simulation: exhaustive ejection-schedule enumeration per seeded workload against ground truth and a schedule-free reference run; ddmin replay files'),
  'C12': dict(engine='bins', cat='exploration', design='5 C12',
    text='Seeded tagged BAMs (sites forced onto bin/job boundaries, sites owned by another job than the read start, filtered records) are counted through the real generate_commands/count_fragments_binned/obtain_counts for every bins_per_job in 1..10 plus whole-contig jobs, each under a seeded SimPool completion order and pool width; the returned dict must equal a one-scan reference model (hence be identical across splits and schedules, total = number of counting records). Sampled inputs and orders: evidence, not proof.',
    note='Trusts SimPool (atomic job bodies, pickled args/results) and the reference model; sites stay within max_fragment_size of their read (documented look-around contract).',
    tech='deterministic simulation: seeded job-partition x worker-completion-order exploration under a simulated process pool, checked against an executable reference model'),
- 'C18': dict(engine='alleles', cat='exploration', design='5 C18',
-   text='Seeded VCFs x histories of 1..4 process lifetimes that share only the on-disk cache directory; each lifetime draws (lazyLoad,use_cache) from all four combinations, possibly a different select_samples/ignore_conversions/phased than the previous one, and an access sequence with absent contigs/positions and revisits of evicted contigs. Every getAllelesAt/has_location answer must equal the eager cache-less resolver of that configuration and a VCF model on clear-cut sites. Sampled histories: evidence, not proof.',
-   note='Trusts pysam VCF parsing and the clear-cut-site model; no I/O faults on the cache (outside the statement).',
-   tech='deterministic simulation: seeded multi-lifetime histories over durable cache state, relational oracle against the eager mode plus a reference model'),
- 'C01': dict(engine='demux', cat='exploration', design='5 C01',
-   text='Seeded FASTQ libraries (all barcode/truncation/N classes, phred 33..126, six header styles, known/unknown/absent sequencing index) are pushed through the real loader loop for one registered strategy at a time, with joint or one-file-per-cell output (HandleLimiter on a SimFS with an fd budget and anomalous clock), with/without a rejects handle and any maxReadPairs cut-off. The recorded I/O history (reads, writes per sink) and the produced files are checked for exactly-once, mate synchronisation, order, valid gzip/FASTQ, reject reason + original bases/qualities, and counters = records written; rejects-off runs are compared with the rejects-on run. Sampled workloads: evidence, not proof.',
+ 'C18': dict(engine='alleles', cat='exploration', design='5 C18, 12.5',
+   text='Seeded VCFs x histories of process lifetimes that share only the on-disk cache directory; each lifetime draws (lazyLoad,use_cache) from all four combinations, possibly another select_samples/ignore_conversions/phased than the previous one, and an access sequence with absent contigs/positions, revisits of evicted contigs and one-read molecules tagged with the resolver (DA assignment). Fault kinds: a lifetime killed at a line of write_cache or hitting EFBIG while it writes the cache (forked child), and a transient EMFILE on the n-th open of a cache file for reading. Every getAllelesAt/has_location/molecule-allele answer (except the one lookup that meets a transient read failure) must equal the eager cache-less resolver of that configuration and a VCF model on clear-cut sites. Sampled histories: evidence, not proof.',
+   note='Trusts pysam VCF parsing and the clear-cut-site model. Only durable state (the cache directory) survives a lifetime.',
+   tech='deterministic simulation: seeded multi-lifetime histories over durable cache state with crash/EFBIG during cache writes and transient read faults; relational oracle against the eager mode plus a reference model'),
+ 'C01': dict(engine='demux', cat='exploration', design='5 C01, 12.5',
+   text='Seeded FASTQ libraries (all barcode/truncation/N classes, phred 33..126, six header styles, known/unknown/absent sequencing index) are pushed through the real loader loop for one registered strategy at a time, with joint or one-file-per-cell output (HandleLimiter on a SimFS with an fd budget and anomalous clock), with/without a rejects handle and any maxReadPairs cut-off; ~1% of the cases (4% thorough) also go through the real demux.py command line in a forked child: lanes and chunk files listed in any order, -n budget across lanes, --norejects/--scsepf/-fh, a trial run or pre-created folder before the real run, and the chunked -g workflow with its glue step. The recorded I/O history and the produced files are checked for exactly-once, mate synchronisation, order, valid gzip/FASTQ, reject reason + original bases/qualities, and counters/log = records written. Sampled workloads: evidence, not proof.',
    note='Trusts the identity parser (unique cluster coordinates survive every header style). Narrow fault axis (fd budget, prune cadence, cut-off); wide axis is the workload. Paired-only strategies are only fed paired input.',
-   tech='deterministic simulation: seeded stream workloads with fd-exhaustion faults on a simulated file system, conservation/exactly-once oracle over the recorded I/O history'),
+   tech='deterministic simulation: seeded stream workloads with fd-exhaustion faults on a simulated file system, run histories at the command line, conservation/exactly-once oracle over the recorded I/O history'),
  'C05': dict(engine='tagconserve', cat='exploration', design='5 C05',
    text='Seeded input BAMs (1..12 contigs either side of the 100 kb small-contig threshold in any order, empty contigs, unplaced/half-mapped/orphan reads, invalid fragments, secondary/supplementary copies) are tagged end to end by the real command-line entry point in single-process mode and with --multiprocess under a SimPool (width 1..4, seeded completion order), with and without --no_rejects, for nla/chic/qflag. Oracle: multiset of primary records (identity, mate, sequence, qualities, reference, position, CIGAR) equals the input, output coordinate-sorted with a usable index, every record has a read group declared in the header, each contig with reads and the unplaced bin owned by exactly one job, --no_rejects removes exactly the invalid fragments (generator label + relation to the default run). Sampled inputs/orders: evidence, not proof.',
    note='Trusts SimPool (atomic task bodies, pickled args/results, shared module globals), the identity parser and the generator label of invalid fragments; samtools-binary branches are unreachable here.',
    tech='deterministic simulation: whole tagger pipeline per forked lifetime under a simulated process pool/clock/uuid source, conservation oracle against the input BAM'),
- 'C20': dict(engine='status', cat='fault_enumeration', design='5 C20',
-   text='For each seeded (workload, pipeline single/--multiprocess, method nla/chic, initial state empty/stale-success) a fault-free traced lifetime records the crash-point map; then the fault family is enumerated: a true kill (os._exit in the forked child) at every distinct executed (function,line) of the pipeline functions in 5 occurrence classes, an exception at every I/O seam x call-index class x error, worker exception/loss in every job, and (thorough) real EFBIG via RLIMIT_FSIZE at 24 quantiles. Oracle: status says success only if the output BAM exists, has an EOF block, scans to the end, is coordinate sorted, has a usable index and equals the input primaries. Enumeration over faults, sampling over workloads.',
-   note='Trusts: kill = os._exit at Python line granularity of the watched functions (C-level htslib writes are not split); exceptions only at I/O seams; SimPool for worker faults. Power-loss/fsync ordering is outside the statement.',
-   tech='deterministic simulation: crash-point enumeration by line-event tracing with os._exit in forked lifetimes, I/O-seam exception plans, simulated worker loss, RLIMIT_FSIZE; post-mortem oracle on the surviving directory'),
+ 'C20': dict(engine='status', cat='fault_enumeration', design='5 C20, 12.5',
+   text='For each seeded (workload, pipeline single/--multiprocess, method nla/chic, initial state empty/stale-success; special layouts and --no_rejects rotate deterministically) a fault-free traced lifetime records the crash-point map and is itself held to the oracle; then the fault family is enumerated: a true kill (os._exit in the forked child) at every distinct executed (function,line) of the pipeline functions in 5 occurrence classes, an exception at every I/O seam x call-index class x error including failing sort/merge calls that leave partial output behind and a sort failing at all temp locations, worker exception/loss in every job, and (thorough) real EFBIG via RLIMIT_FSIZE at 24 quantiles. Oracle: status says success only if the output BAM exists, has an EOF block, scans to the end, is coordinate sorted, has a usable index and holds the records the statement requires. Enumeration over faults, sampling over workloads.',
+   note='Trusts: kill = os._exit at Python line granularity of the watched functions (C-level htslib writes are only split by RLIMIT_FSIZE); exceptions only at I/O seams; SimPool for worker faults. Power-loss/fsync ordering and corruption of stored input bytes are outside the statement.',
+   tech='deterministic simulation: crash-point enumeration by line-event tracing with os._exit in forked lifetimes, I/O-seam exception plans with partial output, simulated worker loss, RLIMIT_FSIZE; post-mortem oracle on the surviving directory'),
  'C08': dict(engine='parallel', cat='exploration', design='5 C08',
    text='The same seeded input BAM (dense libraries, molecules straddling tile edges, sites on tile boundaries, unplaced and invalid fragments) is tagged serially (S), with --multiprocess contig-per-process (P) and twice through the region-tiling API (T: bp_per_segment 30..5000, bp_per_job, fragment_size >= longest fragment, sometimes > segment) under a SimPool of width 1..8 and seeded completion orders. Oracle: multiset of full canonical records (flags, mate fields, every tag except mi/ix) identical across S/P/T; each molecule written by exactly one job, in T the job whose bin contains its site. Sampled inputs/tilings/orders: evidence, not proof.',
    note='Trusts SimPool and the capture of the CLI-built iterator arguments for the tiling API; margins shorter than a fragment are outside the precondition and not generated.',
